@@ -64,6 +64,14 @@ Definition qualifies (c : tcfg) (h : N) : bool := (0 <? h) && (h <? theta0 c).
 (* the distinct offered hashes in (0, theta0) *)
 Definition qual (c : tcfg) (off : list N) : list N := nodup N.eq_dec (filter (qualifies c) off).
 
+(* the starting theta is never 0 (the repaired code clamps it to 1) *)
+Lemma theta0_pos : forall c, 0 < theta0 c.
+Proof.
+  intros c. unfold theta0, starting_theta.
+  destruct (PrimFloat.ltb _ _); [|reflexivity].
+  change (lit GenTheta.LIT_starting_theta_from_sampling_probability 0) with 1. lia.
+Qed.
+
 Lemma lgk_consts : MIN_LG_K = 5 /\ MAX_LG_K = 26.
 Proof. split; reflexivity. Qed.
 
